@@ -72,6 +72,7 @@ class MethodMixin:
             raise PyRaise(SystemExit, tuple(a), n)
         reg(_sys.exit, _exit)
         import os.path
+        reg(os.path.join, lambda a, k, n, f: os.path.join(*a) if not any(is_sym(x) for x in a) else self.ufun(f'py_path_join{len(a)}', *([STR] * len(a)), STR)(*[self.zs.lift(x, STR) for x in a]))
         reg(os.path.isabs, lambda a, k, n, f: os.path.isabs(a[0]) if not is_sym(a[0]) else self.ufun('py_isabs', STR, z3.BoolSort())(a[0]))
         for nm in ('match', 'fullmatch', 'search'):
             reg(getattr(_re, nm), lambda a, k, n, f, nm=nm: self.m_pattern(a[0] if isinstance(a[0], _re.Pattern) else _re.compile(a[0], *a[2:]), nm, [a[1]], n) if is_sym(a[1]) else getattr(_re, nm)(*a))
